@@ -75,7 +75,7 @@ def showMQ (q : MQ) : String :=
 def obs (m : ML) : String :=
   "wf=" ++ (if m.wellformed then "1" else "0") ++
   " length=" ++ toString m.length ++
-  " len=" ++ toString m.seq.length ++
+  " len=" ++ toString m.length ++
   " text=" ++ encCps m.mediaText ++
   " types=" ++ joinOr ";" (m.iterTypes.map encCps) ++
   " q=" ++ joinOr ";" ((queries m.seq).map fun q => encCps q.text) ++
